@@ -17,7 +17,7 @@ RULE = ('Three generators of specification texts: (1) grammar-derived files (typ
         'wrapped with specification header, declarations, constants, several assertions, comments, odd whitespace); (2) token-level '
         'mutations of (1): delete/duplicate/swap/replace a token, truncate, insert characters outside the lexer alphabet, append trailing '
         'tokens, swap interval bounds, hex/binary literals, undeclared bound constant, undeclared identifier, dotted identifiers, literals of extreme magnitude as bounds (1e5000, 4400 digits), the empty text / white space / a comment only; files may import a type from a module that exists or not (from M import T, a variable of that type and one of its fields), carry a ROS topic annotation of a variable / constant / unknown name, and constants declared through the API may have non-finite values (inf, nan, 1e400); (3) token '
-        'soup of 1-40 vocabulary tokens; thorough tier: (4) coverage-guided atheris/libFuzzer campaigns over token sequences with the same oracle inside the target. Oracle: parse() returns or raises RTAMTException only; if it returns, an independent tokenizer '
+        'soup of 1-40 vocabulary tokens; thorough tier: (4) coverage-guided atheris/libFuzzer campaigns over token sequences with the same oracle inside the target. Oracle: parse() returns or raises RTAMTException only; an unmutated file of generator (1) (integer literals also written in hexadecimal, binary or with underscores) has to be accepted; if it returns, an independent tokenizer '
         '+ recogniser (vlib/lang.py) accepts the text, no character was skipped, every interval satisfies 0 <= begin <= end, every bound '
         'identifier is a declared constant, and the first evaluate() on a 4-sample data set supplying every referenced variable returns '
         'or raises RTAMTException. Non-trivial = rejected at a position after the first token, or accepted with >= 1 temporal operator; '
@@ -125,13 +125,25 @@ def spec_files(draw, tier):
             toks[draw(st.sampled_from(idx))] = 'obj.' + draw(st.sampled_from(['numerator', 'real', 'a']))
     if toks and toks[-1] == ';' and draw(st.integers(0, 3)) == 0:
         toks = toks[:-1]
+    if draw(st.integers(0, 4)) == 0:
+        # an integer literal in another of the spellings the lexer knows: hexadecimal, binary, digits separated by underscores
+        idx = [i for i, t in enumerate(toks) if t.isdigit() and (i == 0 or toks[i - 1] not in ('int', '='))]
+        if idx:
+            i = draw(st.sampled_from(idx))
+            v = int(toks[i])
+            alts = [hex(v), bin(v), '0X%X' % v, '0B' + bin(v)[2:]] + (['%s_%s' % (toks[i][0], toks[i][1:]), '%s__%s' % (toks[i][0], toks[i][1:])] if len(toks[i]) > 1 else []) + \
+                ['0x0__%X' % v, '0b0__' + bin(v)[2:]]
+            toks[i] = draw(st.sampled_from(alts))
     # odd layouts of the whole text
     lay = draw(st.integers(0, 11))
     if lay == 0:
         toks = toks + ['\n']
     elif lay == 1:
         toks = ['// header\n'] + toks
-    return {'tokens': toks, 'declare': declare, 'consts': consts}
+    # a file of this generator is derivable from the grammar and its names are declared: parse() has to accept it, unless it
+    # imports a type (the module or the type may not exist) or gives a constant a value that is not a finite number
+    well_formed = typed is None and all(c[2] in ('2', '2.5') for c in consts)
+    return {'tokens': toks, 'declare': declare, 'consts': consts, 'well_formed': well_formed}
 
 
 @st.composite
@@ -202,6 +214,7 @@ def mutated(draw, tier):
             toks.insert(i, draw(st.sampled_from(['(', ')', '[', ']'])))
     c['tokens'] = toks
     c['mutations'] = kinds
+    c['well_formed'] = False
     return c
 
 
@@ -271,6 +284,8 @@ def check(case):
             labels.append('rejected')
             if acc and not illegal:
                 labels.append('rejected-though-grammatical')
+                if case.get('well_formed'):
+                    return FAIL('rejected-well-formed:' + msg.split(':')[-1].strip()[:40], desc + '\nparse() rejected a text that is derivable from the grammar and declares its names: %s' % msg, labels)
             return PASS(not first, labels)
         labels.append('accepted')
         if illegal or 'token recognition error' in cap.text:
